@@ -97,7 +97,7 @@ def method_specs(tier, rnd):
             continue
         if s['asy'] != 'sync' and ('generic' in s['params'] or 'impl' in s['params']):
             continue
-        if s['unmock'] in ('path', 'args') and ('impl' in s['params'] or 'generic' in s['params'] or 'impossible' in s['params'] or s['recv'] in ('rc', 'arc', 'val', 'pin')):
+        if s['unmock'] in ('path', 'args') and ('impl' in s['params'] or 'generic' in s['params'] or 'impossible' in s['params'] or s['recv'] in ('rc', 'arc', 'val') or (s['recv'] == 'pin' and s['unmock'] == 'args')):
             s = dict(s, unmock='none')
         if s['unmock'] in ('path', 'args') and (RETURNS[s['ret']][1] is not None or s['asy'] == 'rpit'):
             s = dict(s, unmock='none')
@@ -117,6 +117,9 @@ def method_specs(tier, rnd):
     return out[:limit]
 
 
+HYGIENE_NAMES = ['output', 'cont', 'inputs', 'eval', 'value']
+
+
 def render_method(s, mname, tname, idx):
     recv_txt = dict(RECEIVERS)[s['recv']]
     ps = []
@@ -127,7 +130,9 @@ def render_method(s, mname, tname, idx):
             generics.append('G: \'static + std::fmt::Debug')
         if k == 'mutref_named':
             generics.insert(0, '\'a')
-        ps.append(('p%d' % i, k, ty))
+        # hygiene: every fifth method names its parameters like identifiers the expansion uses for its own bindings
+        pname = HYGIENE_NAMES[i] if (idx % 5 == 2 and i < len(HYGIENE_NAMES)) else 'p%d' % i
+        ps.append((pname, k, ty))
     ret_ty = RETURNS[s['ret']][0]
     g = '<%s>' % ', '.join(dict.fromkeys(generics)) if generics else ''
     sig_params = ', '.join([recv_txt] + ['%s: %s' % (n, t) for n, _, t in ps])
